@@ -6,6 +6,7 @@ import InfOCFModel.Lexer
 import InfOCFModel.CRepModel
 import InfOCFModel.RemoveSup
 import InfOCFModel.CCert
+import InfOCFModel.LinCert
 /-!
 Line-protocol driver: one request per line on stdin, one response per line on stdout.
 
@@ -98,6 +99,11 @@ def showParsedBase (b : ParsedBase) : String :=
     "\t".intercalate (b.conds.map fun p => p.1.show ++ " ## " ++ p.2.show)
 
 def bit (b : Bool) : String := if b then "1" else "0"
+
+/-- number of vectors in the box below `η`; the exact Pareto test enumerates all of them, so it is only run on boxes up to `boxLimit`
+(the answer is `?` beyond: the harness then looks for a dominated witness with its search engine) -/
+def boxSize (η : List Nat) : Nat := η.foldl (fun acc x => acc * (x + 1)) 1
+def boxLimit : Nat := 200000
 
 def showOut : Out → String
   | .refuseEmpty => "E"
@@ -289,7 +295,7 @@ def handle (line : String) : Except String (String × Bool) := do
       let κ := kappaC D (impOf D η)
       let ranks := " ".intercalate (Ω.map fun w => toString (κ w))
       pure (bit (isCRepB Ω D η) ++ "|" ++ String.join (Q.map fun q => bit (acceptCode Ω κ q)) ++ "|" ++
-            bit (paretoMinB Ω D η) ++ "|" ++ ranks, true)
+            (if boxSize η ≤ boxLimit then bit (paretoMinB Ω D η) else "?") ++ "|" ++ ranks, true)
     | "ctab" =>
       -- families of the compiled c-inference system, as positions in D (the order is the one `cCertCheck` uses)
       let n ← pnat
@@ -312,6 +318,16 @@ def handle (line : String) : Except String (String × Bool) := do
         pure (⟨bm, qm⟩ : CLeaf))
       let Ω := allWorlds n
       pure (String.join (Q.map fun q => bit (cCertCheck Ω D q pool)), true)
+    | "fcert" =>
+      -- completeness certificate of a Pareto front (theorem C17_front_cert_sound)
+      let n ← pnat
+      let D ← listOf pcond
+      let front ← listOf (listOf pnat)
+      let pool ← listOf (do
+        let bm ← listOf (listOf pnat)
+        let fm ← listOf pnat
+        pure (⟨bm, fm⟩ : FLeaf))
+      pure (bit (frontCertCheck (allWorlds n) D front pool), true)
     | "csearch" =>
       let n ← pnat
       let B ← pnat
@@ -339,7 +355,7 @@ def handle (line : String) : Except String (String × Bool) := do
       let gm := gmr.reverse
       let κ' := kappaRev κ R gp gm
       pure (bit (revOkB Ω κ R gp gm) ++ "|" ++ String.join (R.map fun c => bit (acceptCode Ω κ' c)) ++ "|" ++
-            bit (revParetoMinB Ω κ R gp gm) ++ "|" ++ " ".intercalate (Ω.map fun w => toString (κ' w)), true)
+            (if boxSize gm ≤ boxLimit then bit (revParetoMinB Ω κ R gp gm) else "?") ++ "|" ++ " ".intercalate (Ω.map fun w => toString (κ' w)), true)
     | "crevsearch" =>
       -- is there any parameter vector in the cube [0..B] (γ⁺ and γ⁻, or γ⁻ only when gpz = 1)?
       let n ← pnat
